@@ -633,9 +633,15 @@ def _play2(case, ctx, b, scratch, root, W):
         """Keep the alternatives the reply is consistent with; handles known findings."""
         plain = [a for a in alts if not any(f.startswith('known:') for f in a[2])]
         ok = [a for a in plain if matches(a, ns, r)]
-        if not ok:
-            known = [a for a in alts if a not in plain and matches(a, ns, r)]
-            keys = sorted(set(f[6:] for a in known for f in a[2] if f.startswith('known:')))
+        known = [a for a in alts if a not in plain and matches(a, ns, r)]
+        keys = sorted(set(f[6:] for a in known for f in a[2] if f.startswith('known:')))
+        if ok:
+            # the reply fits the statement, but an open known defect explains it just as well (e.g. the
+            # defect path ends in the same error class with other namespaces left loaded): keep both
+            for k in keys:
+                if ctx.known(k):
+                    ok = ok + [a for a in known if 'known:' + k in a[2]]
+        else:
             if known and ctx.known(keys[0]):
                 ok = known
             else:
